@@ -38,6 +38,7 @@ from typing import (
     List,
     Optional,
     Set,
+    Tuple,
     Type,
     Union,
     overload,
@@ -2097,11 +2098,19 @@ class BaseInterpreter(Generic[TContext, TEvent]):
                 child.type == "history" for child in state.states.values()
             ):
                 continue
-            remembered = [
-                node
-                for node in self._active_state_nodes
-                if node is not state and self._is_descendant(node, state)
-            ]
+            # 📑 `_active_state_nodes` is a set of objects hashed by address,
+            #    so its iteration order differs between runs. The recorded list
+            #    decides the order in which a history target re-enters the
+            #    regions of a parallel state - sort it into document order so
+            #    the restored entry actions run in the same order every time.
+            remembered = sorted(
+                (
+                    node
+                    for node in self._active_state_nodes
+                    if node is not state and self._is_descendant(node, state)
+                ),
+                key=self._document_position,
+            )
             if remembered:
                 self._history[state.id] = remembered
                 logger.debug(
@@ -2109,6 +2118,27 @@ class BaseInterpreter(Generic[TContext, TEvent]):
                     state.id,
                     [n.id for n in remembered],
                 )
+
+    @staticmethod
+    def _document_position(node: StateNode) -> Tuple[int, ...]:
+        """Returns a sort key placing state nodes in document order.
+
+        The key is the path of child indices from the root down to `node`, so
+        a parent sorts before its children and siblings sort in the order in
+        which the configuration declares them.
+
+        Args:
+            node (StateNode): The node to locate.
+
+        Returns:
+            Tuple[int, ...]: The child-index path from the root to `node`.
+        """
+        path: List[int] = []
+        current = node
+        while current.parent is not None:
+            path.append(list(current.parent.states).index(current.key))
+            current = current.parent
+        return tuple(reversed(path))
 
     def _resolve_history_target(
         self, history_node: StateNode
